@@ -7,6 +7,7 @@ ASSUME = [
     'bounds: <=3 threads, <=3 operations each, initial streams of 0-3 batches, preemption bound 2 (quick) / 3 (thorough); positions x <= newest id added before the call',
     'oracle: sorted-map model with a version timeline; a result is legal when some linearization of the Add/Delete calls consistent with their call/return order contains a state, existing during the call, in which it is correct',
     'sequential tier: all programs up to length 5 (quick) / 7 (thorough) with Delete of any existing id',
+    'small-cache build: the limits of the decoded-batch cache (1000 / 500 entries) are rewritten to 1 / 1 in the regenerated copy of outputstream.go, so that bounded programs reach the eviction branch; on that build all sequential programs of the same length with reads chained behind reads (reads fill and evict the cache), thorough: also the concurrent programs',
 ]
 RULE = ('programs of 2-3 threads over Add / Delete(oldest-first, possibly reaching the tail) / Delete(non-existing) / GetNext(x) / Get / cancel+InterruptGetNext, '
         'every schedule within the preemption bound; plus all sequential programs up to the length bound; a program is non-trivial when its schedules produce >=2 distinct observations')
@@ -15,8 +16,26 @@ def build():
     ov = vlib.make_overlay('c08', harness=['outputstream'], engines=['vsync'], rewrite_sync=['internal/outputstream/outputstream.go'], rewrite_harness=[('outputstream', 'export.go')])
     return vlib.build_test('./internal/outputstream', os.path.join(vlib.BUILD, 'c08.test'), ov)
 
+def build_small():
+    """The same build with the size limits of the batch cache shrunk from 1000/500 to 1/1 entries, so that
+    bounded programs reach the eviction branch.  The constants are rewritten in the regenerated copy of
+    outputstream.go; when they are not found (the code was restructured) the tier is skipped with a note."""
+    ov = vlib.make_overlay('c08small', harness=['outputstream'], engines=['vsync'], rewrite_sync=['internal/outputstream/outputstream.go'], rewrite_harness=[('outputstream', 'export.go')])
+    repl = json.load(open(ov))['Replace']
+    src = os.path.join(vlib.REPO, 'internal/outputstream/outputstream.go')
+    f = repl.get(src)
+    if not f:
+        return None
+    t = open(f).read()
+    if t.count('len(os.messagesCache) > 1000') != 1 or t.count('len(os.messagesCache) < 500') != 1:
+        return None
+    t = t.replace('len(os.messagesCache) > 1000', 'len(os.messagesCache) > 1').replace('len(os.messagesCache) < 500', 'len(os.messagesCache) < 1')
+    open(f, 'w').write(t)
+    return vlib.build_test('./internal/outputstream', os.path.join(vlib.BUILD, 'c08small.test'), ov)
+
 def prebuild():
     build()
+    build_small()
 
 def reexec(binary, v, count=5):
     sd = vlib.scratch_dir()
@@ -36,8 +55,25 @@ def run(tier):
     env = {'VERIF_TIER': tier, 'VERIF_DEADLINE': str(int(t0 + budget)), 'GOMAXPROCS': '1'}
     rc = vlib.run_workers(binary, 'TestVerifC08', vlib.NCPU, env=env)
     rs = vlib.run_workers(binary, 'TestVerifC08Seq', vlib.NCPU, env=env)
+    # small-cache build: sequential programs in which reads are chained (they fill and evict the cache),
+    # and the concurrent programs once more
+    small = build_small()
+    small_cov = {'skipped': 'cache size constants not found in outputstream.go'}
+    if small:
+        e2 = dict(env); e2['VERIF_C08_CHAIN'] = '1'
+        rss = vlib.run_workers(small, 'TestVerifC08Seq', vlib.NCPU, env=e2)
+        rcs = vlib.run_workers(small, 'TestVerifC08', vlib.NCPU, env=env) if tier == 'thorough' else []
+        for r in rss + rcs:
+            for v in r.get('violations') or []:
+                v['sig'] += ' (cache limited to 1 entry)'
+                v['prop'] = 'C08small'
+        small_cov = {'cache_limit': 1, 'sequential_programs_with_chained_reads': sum(r['sequential_programs'] for r in rss),
+                     'concurrent_schedules': sum(r['executions'] for r in rcs)}
+        rs_small = rss + rcs
+    else:
+        rs_small = []
     viols = []
-    for r in rc + rs: viols += r.get('violations') or []
+    for r in rc + rs + rs_small: viols += r.get('violations') or []
     bysig = {}
     for v in viols:
         if v['sig'] in bysig: bysig[v['sig']]['count'] += v.get('count', 1)
@@ -62,6 +98,7 @@ def run(tier):
         'distinct_observations': sum(r['distinct_observations'] for r in rc),
         'preemption_bound': rc[0]['preemption_bound'], 'programs_truncated_by_cap': truncated,
         'sequential_programs': sum(r['sequential_programs'] for r in rs), 'sequential_max_len': rs[0]['max_len'],
+        'small_cache_build': small_cov,
         'samples': (sum([r.get('samples') or [] for r in rc], [])[:6] + sum([r.get('samples') or [] for r in rs], [])[:3]),
         'exhaustive': truncated == 0, 'rule': RULE,
     }
